@@ -56,7 +56,9 @@ func pureCondBlock(b *ssa.BasicBlock) bool {
 	if n == 0 {
 		return false
 	}
-	if _, ok := b.Instrs[n-1].(*ssa.If); !ok {
+	switch b.Instrs[n-1].(type) {
+	case *ssa.If, *ssa.Jump:
+	default:
 		return false
 	}
 	for _, in := range b.Instrs[:n-1] {
@@ -195,6 +197,10 @@ func evalRegion(fr *frame, ifi *ssa.If, cond *Term) (*ssa.BasicBlock, *ssa.Basic
 		for _, in := range b.Instrs[:n-1] {
 			curInstr = in
 			visitInstr(fr, in)
+		}
+		if _, isJump := b.Instrs[n-1].(*ssa.Jump); isJump {
+			addEdge(b, b.Succs[0], rc)
+			continue
 		}
 		cv := fr.get(b.Instrs[n-1].(*ssa.If).Cond)
 		var ct *Term
